@@ -64,13 +64,13 @@ class C05(Base):
         cs = self.corpus()
         dist = {}
         self.ref = {}
-        smalls, _ = small_valid(rng, tier, 6 if tier == 'quick' else 40, 9 if tier == 'quick' else 11)
+        smalls, _ = small_valid(rng, tier, 6 if tier == 'quick' else 40, 8 if tier == 'quick' else 11)
         seen = set()
         for fam, p, b in smalls:
             if (fam, b) in seen:
                 continue
             seen.add((fam, b))
-            if len(seen) > (140 if tier == 'quick' else 1500):
+            if len(seen) > (90 if tier == 'quick' else 1500):
                 break
             for tail in ('eof',):
                 self.add(cs, fam, b, [], [], tail, dist, 'exh')
@@ -91,13 +91,15 @@ class C05(Base):
             for v in variants:
                 for _ in range(nsch):
                     tail = rng.choice(['eof', 'eof', 'k4', 'k6'])
+                    fi = frame_info(v)
+                    huge = fi is not None and fi[1] > 200000     # the harness clones the state (buffer) at every Pending
                     if len(v) < 300:
-                        at = random_schedule(v, rng, pend=rng.choice([0, 0.1, 0.5]), cut=rng.choice([0.05, 0.3, 0.9]))
+                        at = random_schedule(v, rng, pend=0 if huge else rng.choice([0, 0.1, 0.5]), cut=rng.choice([0.05, 0.3, 0.9]))
                     else:
                         # long: a few cuts only
                         k = rng.randint(1, 6)
                         cuts = sorted(rng.sample(range(1, len(v)), min(k, len(v) - 1)))
-                        at = atoms_of(v, cuts, [0] + [c for c in cuts if rng.random() < 0.5])
+                        at = atoms_of(v, cuts, [] if huge else [0] + [c for c in cuts if rng.random() < 0.5])
                     c = 'sched %s %s %s' % (fam, at, tail)
                     cs.append(c)
                     hist(dist, 'rand:' + tag.split(':')[0])
